@@ -1,9 +1,55 @@
--- line-protocol handler of property C02 (stub: nothing modelled yet)
+-- line-protocol handler of property C02 (soundness for invalid executions / other statements).
+-- Modelled ops (compared with the implementation):
+--   valid <field> <AirDesc line> <pubs csv|-> <col;col;… each csv>   the reference validity predicate
+--         (`checkMain` of Winter/Model/VerifierChecks.lean, decided = `Valid` by WinterProofs.C02.checkMain_iff)
+--   seed <field> <main w> <aux w> <aux rands> <log2 len> <meta hex|-> <q.b.g.x.f.r>   `Context::to_elements`
+-- The adversarial ops (`cell`, `auxcell`, `stmt`) run the real prover and verifier and are judged by
+-- the harness's oracle; the model answers `-`.  Descriptions are assumed validated (the harness only
+-- emits descriptions `AirDesc::parse` accepts); a line the driver cannot parse is `bad-op`.
 import Winter.Drv.Util
+import Winter.Model.VerifierChecks
 
 namespace Drv.C02
+open Model Model.VerifierChecks
 
-def handle (_toks : List String) : String := "-"
+def fieldOf (s : String) : Option FieldImpl :=
+  if s = "f64" then some F64.impl else if s = "f62" then some F62.impl else if s = "f128" then some F128.impl else none
+
+def csv? (s : String) : Option (List Nat) :=
+  if s = "-" then some [] else (s.splitOn ",").mapM parseNat
+
+def kindName : ViolKind → String
+  | .shape => "Shape"
+  | .transition => "Transition"
+  | .assertion => "Assertion"
+
+def violText : Option Violation → String
+  | none => "ok"
+  | some v => s!"{kindName v.kind}[{v.index}]@{v.step}"
+
+def modulusBytes (F : FieldImpl) : List Nat := leBytes F.bytes F.M
+
+def handle (toks : List String) : String :=
+  match toks with
+  | ["valid", f, desc, pubs, trace] =>
+    match fieldOf f, parseAir desc, csv? pubs, (trace.splitOn ";").mapM csv? with
+    | some F, some A, some pubs, some cols =>
+      violText (checkMain A F.M (cols.map fun c => c.map (· % F.M)) (pubs.map (· % F.M)))
+    | _, _, _, _ => "bad-op"
+  | ["seed", f, mw, aw, nr, loglen, md, opts] =>
+    match fieldOf f, natList [mw, aw, nr, loglen], unhex md, (opts.splitOn ".").mapM parseNat with
+    | some F, some [mw, aw, nr, loglen], some md, some [q, b, g, x, fo, r] =>
+      let o : Serde.ProofOptions := ⟨q, b, g, x, fo, r⟩
+      let t : Serde.TraceInfo := ⟨mw, aw, nr, 2 ^ loglen, md⟩
+      if ¬ o.wf ∨ ¬ t.wf ∨ loglen < 3 ∨ 20 < loglen then "bad-op"
+      else joinNat (contextElements F.bytes ⟨t, modulusBytes F, o⟩)
+    | _, _, _, _ => "bad-op"
+  | "valid" :: _ => "bad-op"
+  | "seed" :: _ => "bad-op"
+  | "cell" :: _ => "-"
+  | "auxcell" :: _ => "-"
+  | "stmt" :: _ => "-"
+  | _ => "bad-op"
 
 end Drv.C02
 
